@@ -559,6 +559,34 @@ where
     json!({"parse": parse, "check": check})
 }
 
+/// The never-failing interface of the same combinators (NeverFailedTypedNode::parse_with / check_with), next to observe_raw.
+pub fn observe_raw_nf<'i, R: RuleType, T>(job: &'i Job, count: impl Fn(&T) -> i64) -> Value
+where
+    T: pest_typed::TypedNode<'i, R> + pest_typed::NeverFailedTypedNode<'i, R> + Debug,
+{
+    let mut v = observe_raw::<R, T>(job, &count);
+    let s: &'i str = job.full.as_str();
+    let stk_json = |stack: &Stack<Span<'i>>| -> Vec<Value> {
+        stack[0..stack.len()].iter().map(|x| json!([x.start(), x.end()])).collect()
+    };
+    let parse = guard(|| {
+        let input = Position::from_start(s);
+        let mut stack = Stack::new();
+        let (rest, node) = <T as pest_typed::NeverFailedTypedNode<'i, R>>::parse_with(input, &mut stack);
+        json!({"ok": true, "end": rest.byte_offset(), "n": count(&node), "stk": stk_json(&stack),
+               "dbgh": strhash(&format!("{:?}", node))})
+    });
+    let check = guard(|| {
+        let input = Position::from_start(s);
+        let mut stack = Stack::new();
+        let rest = <T as pest_typed::NeverFailedTypedNode<'i, R>>::check_with(input, &mut stack);
+        json!({"ok": true, "end": rest.byte_offset(), "stk": stk_json(&stack)})
+    });
+    v["nf_parse"] = parse;
+    v["nf_check"] = check;
+    v
+}
+
 /// Flatten whatever a generated getter returns (&Rule, Option, Vec, tuples, nested) into the spans of the nodes (C16).
 pub trait Flat<'i, R: RuleType> {
     fn flat(&self, out: &mut Vec<(usize, usize)>);
